@@ -15,6 +15,7 @@
   Core Lean only.
 -/
 import Lattigo.Model.RPoly
+import Lattigo.Model.SamplerUniform
 
 namespace Lattigo.MP
 
@@ -295,103 +296,51 @@ def galInv (galEl n : Nat) : Nat :=
 
 /-! ## The common reference string (crs.go, ring/sampler_uniform.go, ring/ringqp/samplers.go)
 
-  A CRS is a keyed XOF; here its output is a byte array and the number of bytes handed out.
-  Every `SampleCRP` builds FRESH `ring.UniformSampler`s (one for Q, one for P), each with a private
-  1024-byte buffer refilled from the CRS, so the reference polynomials are a function of the CRS
-  bytes, the CRS position and the request only; the unused tail of a buffer is discarded. -/
-
-structure CRSState where
-  bytes : Array Nat
-  pos   : Nat
-
-/-- a `ring.UniformSampler`: private buffer and read pointer -/
-structure USampler where
-  buf : Array Nat
-  ptr : Nat
-
-/-- `prng.Read(buffer)` for a 1024-byte buffer -/
-def crsRefill (st : CRSState) : Option (USampler × CRSState) :=
-  if st.pos + 1024 ≤ st.bytes.size then
-    some (⟨st.bytes.extract st.pos (st.pos + 1024), 0⟩, { st with pos := st.pos + 1024 })
-  else none
-
-/-- `binary.BigEndian.Uint64(buffer[ptr:ptr+8])` -/
-def be64 (b : Array Nat) (p : Nat) : Nat :=
-  (List.range 8).foldl (fun acc i => acc * 256 + b[p + i]!) 0
-
-/-- `SubRing.Mask = (1 << bits.Len64(q-1)) - 1` -/
-def maskOf (q : Nat) : Nat := if q ≤ 1 then 0 else 2 ^ (Nat.log2 (q - 1) + 1) - 1
-
-/-- the rejection loop for one coefficient -/
-def sampleCoeff (q mask : Nat) : Nat → CRSState → USampler → Option (Nat × CRSState × USampler)
-  | 0, _, _ => none
-  | fuel + 1, st, u =>
-    match (if u.ptr == 1024 then crsRefill st else some (u, st)) with
-    | none => none
-    | some (u, st) =>
-      let x := be64 u.buf u.ptr &&& mask
-      let u := { u with ptr := u.ptr + 8 }
-      if x < q then some (x, st, u) else sampleCoeff q mask fuel st u
-
-def sampleRow (q n : Nat) : Nat → CRSState → USampler → Option (List Nat × CRSState × USampler)
-  | 0, st, u => some ([], st, u)
-  | k + 1, st, u =>
-    match sampleCoeff q (maskOf q) (st.bytes.size / 8 + 2) st u with
-    | none => none
-    | some (x, st, u) =>
-      match sampleRow q n k st u with
-      | none => none
-      | some (xs, st, u) => some (x :: xs, st, u)
-
-/-- `UniformSampler.read`: refill on entry when the pointer is 0 or 1024, then row by row -/
-def samplePoly (qs : List Nat) (n : Nat) (st : CRSState) (u : USampler) :
-    Option (List (List Nat) × CRSState × USampler) :=
-  match (if u.ptr == 0 || u.ptr == 1024 then crsRefill st else some (u, st)) with
-  | none => none
-  | some (u, st) =>
-    qs.foldl (fun acc q =>
-      match acc with
-      | none => none
-      | some (rows, st, u) =>
-        match sampleRow q n n st u with
-        | none => none
-        | some (r, st, u) => some (rows ++ [r], st, u)) (some ([], st, u))
-
-/-- one `SampleCRP`: fresh samplers, `count` polynomials over `qs` (and `ps`), Q part then P part each -/
-def sampleCRPs (qs ps : List Nat) (n : Nat) : Nat → CRSState → USampler → USampler →
-    Option (List (List (List Nat)) × CRSState)
-  | 0, st, _, _ => some ([], st)
-  | k + 1, st, uq, up =>
-    match samplePoly qs n st uq with
-    | none => none
-    | some (rq, st, uq) =>
-      match (if ps.isEmpty then some ([], st, up) else samplePoly ps n st up) with
-      | none => none
-      | some (rp, st, up) =>
-        match sampleCRPs qs ps n k st uq up with
-        | none => none
-        | some (rest, st) => some ((rq ++ rp) :: rest, st)
+  A CRS is a keyed XOF (`sampling.KeyedPRNG`, modelled in `Model/SamplerPRNG.lean`); a party's copy of it is the
+  not-yet-read part of its byte stream.  Every `SampleCRP` builds FRESH `ring.UniformSampler`s (one for Q, one for
+  P), each with a private 1024-byte buffer refilled from the CRS: the reference polynomials are
+  `ringqp.UniformSampler.ReadNew` — the C17 model `Sampler.qpRead` on fresh buffers — applied `count` times, a
+  function of the CRS bytes and the request only; the unused tail of the last buffers is discarded with the
+  samplers. -/
 
 structure CRPRequest where
   qs : List Nat
   ps : List Nat
   n  : Nat
   count : Nat
+  deriving Repr, DecidableEq
 
-def freshSampler : USampler := ⟨#[], 0⟩
+/-- `count` times `ReadNew` on the same pair of samplers; a polynomial is its Q rows followed by its P rows -/
+def crpReadN (fuel : Nat) (qs ps : List Nat) (n : Nat) :
+    Nat → Sampler.Bytes → Sampler.QPBufs → Sampler.Res (List Sampler.Poly × Sampler.Bytes)
+  | 0, s, _ => .ok ([], s)
+  | k + 1, s, bs =>
+    match Sampler.qpRead fuel (some qs) (if ps.isEmpty then none else some ps)
+        (Sampler.zeroPoly qs.length n) (Sampler.zeroPoly ps.length n) s bs with
+    | .ok (rQ, rP, s, bs) =>
+      match crpReadN fuel qs ps n k s bs with
+      | .ok (rest, s) => .ok ((rQ ++ rP) :: rest, s)
+      | .exhausted => .exhausted
+      | .panic => .panic
+    | .exhausted => .exhausted
+    | .panic => .panic
 
-def sampleCRP (r : CRPRequest) (st : CRSState) : Option (List (List (List Nat)) × CRSState) :=
-  sampleCRPs r.qs r.ps r.n r.count st freshSampler freshSampler
+/-- one `SampleCRP`: fresh samplers (fresh buffers), `count` polynomials; the rejection loop of one coefficient can
+    use at most all remaining 64-bit words (`fuel`) -/
+def sampleCRP (r : CRPRequest) (s : Sampler.Bytes) : Sampler.Res (List Sampler.Poly × Sampler.Bytes) :=
+  crpReadN (s.length / 8 + 2) r.qs r.ps r.n r.count s ⟨Sampler.Buf.new, Sampler.Buf.new⟩
 
 /-- a party's sequence of `SampleCRP` calls on its copy of the CRS -/
-def runCRS : List CRPRequest → CRSState → Option (List (List (List (List Nat))) × CRSState)
-  | [], st => some ([], st)
-  | r :: rs, st =>
-    match sampleCRP r st with
-    | none => none
-    | some (p, st) =>
-      match runCRS rs st with
-      | none => none
-      | some (ps, st) => some (p :: ps, st)
+def runCRS : List CRPRequest → Sampler.Bytes → Sampler.Res (List (List Sampler.Poly) × Sampler.Bytes)
+  | [], s => .ok ([], s)
+  | r :: rs, s =>
+    match sampleCRP r s with
+    | .ok (p, s) =>
+      match runCRS rs s with
+      | .ok (ps, s) => .ok (p :: ps, s)
+      | .exhausted => .exhausted
+      | .panic => .panic
+    | .exhausted => .exhausted
+    | .panic => .panic
 
 end Lattigo.MP
